@@ -469,3 +469,215 @@ func ruleRecursionResult(c *eng.Ctx, rule string, pkgs []string) {
 	}
 	c.Notes = append(c.Notes, fmt.Sprintf("%s: %d recursive calls of value-returning functions in %v", rule, n, pkgs))
 }
+
+// ruleSyncIndexTable: after a merge the secondary indexes are brought in line with the document as it
+// was before (oldDoc) and as it is after (doc) the merge; either lookup may report "not found" (nil
+// document). Decision table of syncIndexedDoc over (isNewDoc, isDeletedDoc): new ⇒ index doc; deleted ⇒
+// un-index oldDoc; both present ⇒ update; neither visible ⇒ no index call at all (both documents are nil).
+func ruleSyncIndexTable(c *eng.Ctx) {
+	const rule = "SYNC-INDEX-TABLE"
+	fi := c.Anchor(rule, "internal/db.syncIndexedDoc")
+	if fi == nil {
+		return
+	}
+	info := fi.Pkg.TypesInfo
+	// the two flags: bools defined from errors.Is(err, …NotFound…), in source order
+	var flags []types.Object
+	ast.Inspect(fi.Decl.Body, func(m ast.Node) bool {
+		as, ok := m.(*ast.AssignStmt)
+		if !ok || len(as.Lhs) != 1 || len(as.Rhs) != 1 {
+			return true
+		}
+		if call, ok := ast.Unparen(as.Rhs[0]).(*ast.CallExpr); ok && strings.HasSuffix(eng.CalleeName(info, call), "errors.Is") {
+			if o := eng.ObjOf(info, as.Lhs[0]); o != nil {
+				flags = append(flags, o)
+			}
+		}
+		return true
+	})
+	if len(flags) != 2 {
+		c.Unknown(rule, "syncIndexedDoc:flags", fi.Decl.Pos(), fmt.Sprintf("expected two not-found flags, found %d", len(flags)))
+		return
+	}
+	flow := eng.NewFlow(info, fi.Decl.Body)
+	start, ok := flow.PointOf(assignOfObj(info, fi.Decl.Body, flags[1]))
+	if !ok {
+		c.Unknown(rule, "syncIndexedDoc:start", fi.Decl.Pos(), "flag definition not in the flow graph")
+		return
+	}
+	want := map[[2]bool]string{{true, false}: "indexNewDoc", {false, true}: "deleteIndexedDoc", {false, false}: "updateDocIndex", {true, true}: ""}
+	for _, isNew := range []bool{true, false} {
+		for _, isDel := range []bool{true, false} {
+			got := map[string]bool{}
+			outs, _ := flow.Paths(eng.PathSpec{
+				Start: &start,
+				Cond: func(br eng.Branch) eng.Tri {
+					return eng.BranchTri(info, br, func(e ast.Expr) eng.Tri {
+						switch eng.ObjOf(info, e) {
+						case flags[0]:
+							return eng.TriOf(isNew)
+						case flags[1]:
+							return eng.TriOf(isDel)
+						}
+						if t := happyAtom(info, e); t != eng.Unknown {
+							return t
+						}
+						return eng.Unknown
+					})
+				},
+				Effect: func(nd ast.Node) string {
+					lbl := ""
+					ast.Inspect(nd, func(x ast.Node) bool {
+						if call, ok := x.(*ast.CallExpr); ok {
+							nm := eng.CalleeName(info, call)
+							for _, k := range []string{"indexNewDoc", "deleteIndexedDoc", "updateDocIndex"} {
+								if strings.HasSuffix(nm, "."+k) {
+									lbl = k
+								}
+							}
+						}
+						return true
+					})
+					return lbl
+				},
+			})
+			for _, o := range outs {
+				got[strings.Join(o.Effects, "+")] = true
+			}
+			keys := setKeys(got)
+			w := want[[2]bool{isNew, isDel}]
+			c.Check(len(keys) == 1 && keys[0] == w, rule, fmt.Sprintf("syncIndexedDoc:cell(absent-before=%v,absent-after=%v)", isNew, isDel), fi.Decl.Pos(), "index action: "+map[bool]string{true: "none", false: w}[w == ""],
+				fmt.Sprintf("with the document absent-before=%v / absent-after=%v the index is maintained by %v, required %q: a nil document reaches the index code (panic in the merge goroutine) or an index entry is left behind / missing", isNew, isDel, keys, w))
+		}
+	}
+}
+
+func assignOfObj(info *types.Info, body *ast.BlockStmt, o types.Object) ast.Node {
+	var out ast.Node
+	ast.Inspect(body, func(m ast.Node) bool {
+		if as, ok := m.(*ast.AssignStmt); ok {
+			for _, l := range as.Lhs {
+				if id, ok := l.(*ast.Ident); ok && info.Defs[id] == o {
+					out = as
+				}
+			}
+		}
+		return true
+	})
+	return out
+}
+
+// ruleReplicatorTableExact: server.updateReplicators sets the collections a replicator peer is
+// registered for to exactly the given set. For a collection that is not in the (non-empty) set the
+// peer is removed from the in-memory table — otherwise a partial DeleteReplicator keeps pushing the
+// dropped collection until the next restart rebuilds the table from the persisted list.
+func ruleReplicatorTableExact(c *eng.Ctx) {
+	const rule = "REPLICATOR-TABLE-EXACT"
+	fi := c.Anchor(rule, "net.(*server).updateReplicators")
+	if fi == nil {
+		return
+	}
+	info := fi.Pkg.TypesInfo
+	ps := paramObjs(info, fi.Decl)
+	var set types.Object
+	for _, p := range ps {
+		if _, ok := p.Type().Underlying().(*types.Map); ok {
+			set = p
+		}
+	}
+	if set == nil {
+		c.Unknown(rule, "updateReplicators:set-param", fi.Decl.Pos(), "anchor-unresolved")
+		return
+	}
+	flow := eng.NewFlow(info, fi.Decl.Body)
+	// removal sites: delete(<per-collection peer map>, rep.ID) inside a range over s.replicators
+	n, reachable := 0, false
+	ast.Inspect(fi.Decl.Body, func(m ast.Node) bool {
+		rs, ok := m.(*ast.RangeStmt)
+		if !ok || !isFieldNamed(info, rs.X, "replicators") {
+			return true
+		}
+		ast.Inspect(rs.Body, func(x ast.Node) bool {
+			call, ok := x.(*ast.CallExpr)
+			if !ok {
+				return true
+			}
+			if id, ok := call.Fun.(*ast.Ident); !ok || id.Name != "delete" || len(call.Args) != 2 {
+				return true
+			}
+			if eng.ObjOf(info, call.Args[0]) == set {
+				return true // bookkeeping on the given set
+			}
+			n++
+			var stmt ast.Node
+			ast.Inspect(rs.Body, func(y ast.Node) bool {
+				if es, ok := y.(*ast.ExprStmt); ok && es.X == ast.Expr(call) {
+					stmt = es
+				}
+				return true
+			})
+			if stmt == nil {
+				return true
+			}
+			pt, ok := flow.PointOf(stmt)
+			if !ok {
+				return true
+			}
+			// reachable from the function entry with: the set non-empty, the collection not a member
+			hit := flow.Forward(flow.Entry(), true, eng.Walk{
+				Visit: func(p eng.Point, nd ast.Node) eng.Action {
+					if p == pt {
+						return eng.Hit
+					}
+					return eng.Continue
+				},
+				Edge: func(cond ast.Expr, taken bool) bool {
+					t := eng.EvalBool(info, cond, func(e ast.Expr) eng.Tri {
+						// len(set) == 0 / != 0 / > 0
+						if be, ok := ast.Unparen(e).(*ast.BinaryExpr); ok {
+							if lc, ok := ast.Unparen(be.X).(*ast.CallExpr); ok {
+								if id, ok := lc.Fun.(*ast.Ident); ok && id.Name == "len" && len(lc.Args) == 1 && eng.ObjOf(info, lc.Args[0]) == set {
+									if k, ok := eng.IntConst(info, be.Y); ok {
+										if r, ok := eng.CmpHolds(be.Op, cmpInt(2, k)); ok {
+											return eng.TriOf(r)
+										}
+									}
+								}
+							}
+						}
+						// membership flag of the set: `_, has := set[k]`
+						if o := eng.ObjOf(info, e); o != nil {
+							isMember := false
+							ast.Inspect(fi.Decl.Body, func(y ast.Node) bool {
+								if as, ok := y.(*ast.AssignStmt); ok && len(as.Lhs) == 2 && len(as.Rhs) == 1 && eng.ObjOf(info, as.Lhs[1]) == o {
+									if ix, ok := ast.Unparen(as.Rhs[0]).(*ast.IndexExpr); ok && eng.ObjOf(info, ix.X) == set {
+										isMember = true
+									}
+								}
+								return true
+							})
+							if isMember {
+								return eng.False
+							}
+						}
+						return eng.Unknown
+					})
+					switch t {
+					case eng.True:
+						return taken
+					case eng.False:
+						return !taken
+					}
+					return true
+				},
+			})
+			if hit {
+				reachable = true
+			}
+			return true
+		})
+		return true
+	})
+	c.Check(n > 0 && reachable, rule, "updateReplicators:dropped-collection⇒peer-removed", fi.Decl.Pos(), "for a non-empty set, a collection outside the set loses the peer",
+		"with a non-empty collection set the peer is not removed from the in-memory table of a collection that is no longer in the set: after a partial DeleteReplicator the running node keeps pushing that collection to the peer, a restarted node (table rebuilt from the persisted list) does not")
+}
